@@ -84,6 +84,62 @@ def _hist_task(task):
         shutil.rmtree(cwd, ignore_errors=True)
 
 
+def _fs_task(task):
+    """calls that do not request a dump, with and without a dump_path (missing / nested / existing): nothing may appear on disk"""
+    how, dump_path_kind = task
+    lib = C._import_lib()
+    root = tempfile.mkdtemp(prefix="verif_c14_fs_")
+    old = os.getcwd()
+    os.chdir(root)
+    try:
+        os.makedirs(os.path.join(root, "in"))
+        os.makedirs(os.path.join(root, "existing"))
+        src = os.path.join(root, "in", "a.sql")
+        text = "CREATE TABLE a (id int, b varchar(5)); -- c\nCREATE SEQUENCE s START 1;\n"
+        with open(src, "w") as f:
+            f.write(text)
+        before = sorted((d, tuple(sorted(fs))) for d, _, fs in os.walk(root))
+        dp = {"none": None, "missing": "schemas_out", "nested": os.path.join("x", "y", "z"), "existing": "existing"}[dump_path_kind]
+        kw = {} if dp is None else {"dump_path": dp}
+        try:
+            if how == "run":
+                lib.DDLParser(text).run(**kw)
+            elif how == "run_group":
+                lib.DDLParser(text).run(group_by_type=True, **kw)
+            elif how == "file":
+                lib.parse_from_file(src, **kw)
+            elif how == "file_dump_false":
+                lib.parse_from_file(src, dump=False, **kw)
+            elif how == "cli_no_dump":
+                from simple_ddl_parser import cli
+                import contextlib
+                import io
+                argv = [src, "--no-dump"] + (["-t", dp] if dp else [])
+                import sys as _sys
+                old_argv = _sys.argv
+                _sys.argv = ["sdp"] + argv
+                try:
+                    with contextlib.redirect_stdout(io.StringIO()), contextlib.redirect_stderr(io.StringIO()):
+                        try:
+                            cli.main()
+                        except SystemExit:
+                            pass
+                finally:
+                    _sys.argv = old_argv
+        except BaseException as e:  # noqa
+            return {"problem": "a call without dump raised", "how": how, "dump_path": dump_path_kind, "exc": type(e).__name__ + ": " + str(e)[:100]}
+        after = sorted((d, tuple(sorted(fs))) for d, _, fs in os.walk(root))
+        if before != after:
+            new = [d[len(root):] for d, _ in after if d not in {x for x, _ in before}] + \
+                  [os.path.join(d[len(root):], f) for d, fs in after for f in fs if (d, f) not in {(x, g) for x, gs in before for g in gs}]
+            return {"problem": "a call that requested no dump changed the file system", "how": how, "dump_path": dump_path_kind, "created": new[:6]}
+        return None
+    finally:
+        os.chdir(old)
+        import shutil
+        shutil.rmtree(root, ignore_errors=True)
+
+
 SEED_SRC = r'''
 import sys, json, hashlib
 sys.path.insert(0, %r)
@@ -252,6 +308,12 @@ def run(tier, seed):
         drift += len(rej2)
     cov["model_drift"] = {"strict_only_rejections": drift}
 
+    # ---- calls without dump leave the file system as it was -------------------------------------------------------------------------
+    fst = [(h, k) for h in ("run", "run_group", "file", "file_dump_false", "cli_no_dump") for k in ("none", "missing", "nested", "existing")]
+    for t_, pr in zip(fst, C.pool().map(_fs_task, fst, 1)):
+        if pr:
+            V.mismatch(dict(pr, input="in/a.sql"), paths=["file_system"])
+    cov["no_dump_file_system_cases"] = len(fst)
     # ---- the end-to-end composition (spec/System.tla): run() twice on the same object, every script of <= 2 statements, all flags
     from .. import sys_check as SY
     sc, ss, st, sn = SY.leg(V, tier, seed, "C14: run() twice, <=2 statements of 15 kinds, silent and raising, flat and grouped", SY.ALL_KINDS, MaxStmts=2 if tier == "quick" else 3,
